@@ -432,7 +432,7 @@ class SymInt:
         return SymInt._shift(self, o, True)
 
     def __rlshift__(self, o):
-        if isinstance(o, int) and 0 <= self.lo and self.hi <= 64 and S.concretize_shift:
+        if isinstance(o, int) and S.concretize_shift:
             # a single-bit mask built from a small symbolic index: fork over the index so that the mask is a
             # constant afterwards (x & const is exact in both encodings)
             return o << eng().concretize(self)
@@ -803,7 +803,7 @@ class Engine:
         self.bounds[x.bv.get_id()] = (x.bv, nlo, nhi)
         return mk(x.bv, x.iv, nlo, nhi)
 
-    def decide(self, sb):
+    def decide(self, sb, payload=None):
         self.stats["decisions"] += 1
         i = self.cursor
         if i >= self.max_decisions:
@@ -833,12 +833,12 @@ class Engine:
             other_ok = (r2 != z3.unsat) if cur else False
         if other_ok:
             v = True
-            self.prefix.append([True, True])
+            self.prefix.append([True, True, payload])
             if not cur:
                 self.cur_model = None
         else:
             v = cur
-            self.prefix.append([v, False])
+            self.prefix.append([v, False, payload])
         self.cursor += 1
         self.isolver.push()
         self.isolver.add(sb.iv if v else z3.Not(sb.iv))
@@ -856,11 +856,15 @@ class Engine:
                 if self.decide(SymBool(x.bv == bvval(v), x.iv == v)):
                     return v
         while True:
-            m = self._model()
-            if m is None:
-                raise Unsupported("steering solver has no model to concretise from")
-            v = m.eval(x.iv, model_completion=True).as_long()
-            if self.decide(SymBool(x.bv == bvval(v), x.iv == v)):
+            i = self.cursor
+            if i < len(self.prefix) and len(self.prefix[i]) > 2 and self.prefix[i][2] is not None:
+                v = self.prefix[i][2]  # replay: the value tried at this decision is part of the path's identity
+            else:
+                m = self._model()
+                if m is None:
+                    raise Unsupported("steering solver has no model to concretise from")
+                v = m.eval(x.iv, model_completion=True).as_long()
+            if self.decide(SymBool(x.bv == bvval(v), x.iv == v), payload=v):
                 return v
             n += 1
             if n > cap:
@@ -956,7 +960,8 @@ class Engine:
         self.forced_len = 0
         self.pending = []
         if forced_prefix:
-            self.prefix = [[bool(v), False] for v in forced_prefix]
+            self.prefix = [[bool(v[0]), False, v[1]] if isinstance(v, (list, tuple)) else [bool(v), False, None]
+                           for v in forced_prefix]
             self.forced_len = len(forced_prefix)
         self.isolver = z3.Solver()
         self.isolver.set("timeout", self.int_timeout_ms)
@@ -975,7 +980,7 @@ class Engine:
             try:
                 outcome = ("ok", fn(self))
             except SplitHere:
-                self.pending.append([bool(v) for v, _ in self.prefix[: self.cursor]])
+                self.pending.append([[bool(e[0]), e[2] if len(e) > 2 else None] for e in self.prefix[: self.cursor]])
                 outcome = None
                 self.stats["aborted"] -= 1
             except BudgetExhausted as ex:
